@@ -18,11 +18,17 @@ list() {
       r2_*) echo "$d/patch.diff /tmp/refac2facts/${n#r2_}";;
       r3_*) echo "$d/patch.diff /tmp/fix3facts/${n#r3_}";;
       r4_*) echo "$d/patch.diff /tmp/refac4facts/${n#r4_}";;
+      r5_*) echo "$d/patch.diff /tmp/fix4facts/${n#r5_}";;
       *) echo "$d/patch.diff /tmp/refacfacts/$n";;
     esac
   done
 }
-one() { if [ "$0" = "-" ]; then rm -rf $1; /verif/driver/run.sh /repo $1 > $1.log 2>&1 && touch $1/.done; else /verif/tools/seedfacts.sh $0 $1; fi; [ -f $1/.done ] || echo "FAILED $1"; }
+one() { # one <patch|-> <facts dir>
+  local P=$1 OUT=$2
+  case "$OUT" in /tmp/*) ;; *) echo "refusing to write facts to $OUT"; return 1;; esac
+  if [ "$P" = "-" ]; then rm -rf "$OUT"; /verif/driver/run.sh /repo "$OUT" > "$OUT.log" 2>&1 && touch "$OUT/.done"; else /verif/tools/seedfacts.sh "$P" "$OUT"; fi
+  [ -f "$OUT/.done" ] || echo "FAILED $OUT"
+}
 export -f one
-mkdir -p /tmp/seedfacts /tmp/seed2facts /tmp/seed3facts /tmp/seed4facts /tmp/combofacts /tmp/refacfacts /tmp/refac2facts /tmp/fix3facts /tmp/refac4facts
-list | xargs -P $J -L 1 bash -c 'one $0 $1'
+mkdir -p /tmp/fix4facts /tmp/seedfacts /tmp/seed2facts /tmp/seed3facts /tmp/seed4facts /tmp/combofacts /tmp/refacfacts /tmp/refac2facts /tmp/fix3facts /tmp/refac4facts
+list | xargs -P $J -L 1 bash -c 'one "$0" "$1"'
